@@ -618,6 +618,9 @@ impl<B: Be> File<B> {
                 let d = f::<B>(ma!().norm(sc(0)));
                 Res::Ints(vec![d.powi(ia(0) as i32).round()])
             }
+            // p-norm of non-integer order ia[0] / 2
+            "norm_half" => Res::Fx(vec![f::<B>(ma!().norm(sc(0) / B::T::from_i64x(2)))]),
+            "v_norm_half" => Res::Fx(vec![f::<B>(va!().norm(sc(0) / B::T::from_i64x(2)))]),
             "max_diff" => Res::Ints(vec![f::<B>(ma!().max_diff(mb!()))]),
             "dot" => Res::Ints(vec![f::<B>(ma!().dot(mb!()))]),
             "argmax" => Res::Ints(ma!().argmax().iter().map(|&x| x as f64).collect()),
